@@ -122,9 +122,33 @@ def fee_withdraw(R, env, prog, sites, RULE):
 
 
 
+def recover_receiver_ok(prog, rcv):
+    """the re-send receiver is the validated `receiver` argument when supplied, else the configured
+    staker: `opt.map(validate).transpose()?.unwrap_or(staker)` or the match / if-let spelling of it"""
+    if rcv is None:
+        return False
+    staker = lambda t: loaded_field(prog, t, "config", ["native_chain_config", "staker_address"], CRATE)
+
+    def validated(t):
+        if t[0] != "payload":
+            return False
+        c_ = shared.unwrap_payload(t)
+        return c_[0] == "call" and shared._body_of_call(prog, c_) is not None and len(c_[2]) == 2 and any(shared.msg_field(s_, "RecoverPendingIbcTransfers", "receiver") for s_ in subterms(c_[2][0])) and loaded_field(prog, c_[2][1], "config", ["native_chain_config", "account_address_prefix"], CRATE)
+
+    if rcv[0] == "call" and rcv[1] == "std::option::Option::unwrap_or" and staker(rcv[2][1]):
+        return True
+    alts = rcv[1] if rcv[0] == "phi" else (rcv,)
+    return len(alts) == 2 and any(staker(a) for a in alts) and any(validated(a) for a in alts)
+
+
 def recover_only(R, env, prog, sites, RULE):
     h = sites["RecoverPendingIbcTransfers"]
     hk = h.body.key
+    from engine.analysis import inline_walk as _iw
+    inline_adds = [bi for bi, t_, args in call_sites(h, lambda nm: nm.endswith("AddAssign::add_assign"))]
+    deep_adds = [1 for c_, p_ in _iw(prog, h, 3) if p_ for bi, t_, args in call_sites(c_, lambda nm: nm.endswith("AddAssign::add_assign"))]
+    if not inline_adds and deep_adds:
+        R.set_undecided([RULE], "recover sums the packets in a helper; only the in-line remove-and-sum loop is modelled")
     rms = [op for op in storage_ops_deep(prog, h, env.depth) if op["kind"] == "w" and ns_of(prog, op["args"][0]) == "inflight"]
     trs = shared.transfers(prog, h, env)
     R.ob(RULE, "recover:one-resend", len(trs) == 1, "found %d IBC transfers in recover" % len(trs), fn=hk)
@@ -147,7 +171,7 @@ def recover_only(R, env, prog, sites, RULE):
         # removal and addition in the same loop body: both blocks on every path through the iteration
         R.ob(RULE, "recover:resend-on-every-success-path", must_pass(h, t["root_bb"]) and shared.response_contains_call_at(h, t["root_bb"]), "recover can succeed without re-sending", loc=t["loc"], fn=hk)
         rcv = t["receiver"]
-        rgood = rcv is not None and rcv[0] == "call" and rcv[1] == "std::option::Option::unwrap_or" and loaded_field(prog, rcv[2][1], "config", ["native_chain_config", "staker_address"], CRATE)
+        rgood = recover_receiver_ok(prog, rcv)
         R.ob(RULE, "recover:receiver", rgood, "re-send goes to %s, expected validated receiver or the configured staker" % fmt(rcv or ("none",))[:160], loc=t["loc"], fn=hk)
     # pairing inside the loop: the add_assign call block and the remove block dominate each other's loop back edge
     for op in rms:
@@ -155,6 +179,7 @@ def recover_only(R, env, prog, sites, RULE):
         heads = [bi for bi, t_, args in call_sites(h, lambda nm: nm == "std::iter::Iterator::next") if elem is not None and norm(h.T.call_term(t_, bi)) == norm(elem[1])]
         paired = bool(addbbs) and len(heads) == 1 and all(pair_in_iteration(h, op["root_bb"], ab, heads[0]) for ab in addbbs)
         R.ob(RULE, "recover:remove-and-add-paired", paired, "a packet can be added to the total without being removed (or removed without being added) in one iteration", loc=op["loc"], fn=hk)
+    R.clear_undecided([RULE])
 
 
 
